@@ -124,3 +124,21 @@ package regprocessor
 //@   atcall processBdReq after: snap resp := res0
 //@   atcall processC2SWrapper before: assert @C12: arg1 == c2sPayload && defined(resp) && c2sPayload != nil && c2sPayload.RegistrationResponse == resp
 //@   ensures @C12 @C11: result1 == nil ==> result0 != nil && defined(resp) && result0 == resp
+
+// C12 "every subnet with a non-zero weight is chosen for the draws in its own interval" rests on the cumulative
+// weights the constructor computes: one threshold per subnet, each the previous one plus that subnet's share of the
+// total weight (so a zero-weight subnet gets an empty interval and everything after it keeps its own share).
+// (totalWeight is the function's own sum of the weights: the clause is about how the shares are accumulated)
+//@ func processOverrideSubnetsWeights(subnets []Subnet) []float64
+//@   ensures @C12: len(result) == len(subnets)
+//@   ensures @C12: len(subnets) > 0 ==> defined(cumulativeWeights)
+//@   ensures @C12: defined(cumulativeWeights) ==> result == cumulativeWeights && cumulativeWeights[0] == subnets[0].Weight / totalWeight
+//@   ensures @C12: defined(cumulativeWeights) ==> (forall i int :: 1 <= i && i < len(subnets) ==> cumulativeWeights[i] == cumulativeWeights[i-1] + subnets[i].Weight / totalWeight)
+//@   assigns nothing
+//@ loop 1:
+//@   invariant 0 <= iter && iter <= len(subnets)
+//@ loop 2:
+//@   invariant 0 <= iter && iter <= len(subnets) && len(cumulativeWeights) == len(subnets) && fresh(cumulativeWeights) && len(subnets) > 0
+//@   invariant iter > 0 ==> cumulativeWeights[0] == subnets[0].Weight / totalWeight
+//@   invariant forall i int :: 1 <= i && i < iter ==> cumulativeWeights[i] == cumulativeWeights[i-1] + subnets[i].Weight / totalWeight
+//@   modifies elems(cumulativeWeights)
